@@ -877,7 +877,7 @@ class Enumerator:
             #   for t in [E for x in it]: body  ==  for x in it: t = E ; body        (E a side-effect-free display of names)
             if not loop_level_jump(s.body):
                 it0 = self.subst(s.iter, st)
-                if isinstance(it0, ast.BinOp) and isinstance(it0.op, ast.Add) and all(isinstance(x, (ast.List, ast.Tuple, ast.ListComp, ast.BinOp)) for x in (it0.left, it0.right)):
+                if isinstance(it0, ast.BinOp) and isinstance(it0.op, ast.Add) and all(isinstance(x, (ast.List, ast.Tuple, ast.ListComp, ast.BinOp, ast.Name, ast.Subscript)) for x in (it0.left, it0.right)) and not all(isinstance(x, (ast.Name, ast.Subscript)) and not isinstance(x, (ast.List, ast.Tuple)) and "$elem(" not in render(x) and not re.match(r"W_|\w+__g", render(x)) for x in (it0.left, it0.right)):
                     parts = [ast.copy_location(ast.For(s.target, side, s.body, [], None), s) for side in (it0.left, it0.right)]
                     for x in parts:
                         ast.fix_missing_locations(x)
